@@ -31,7 +31,9 @@ MANIFEST = dict(
                 "takes nothing and a Proxy.callback queues no TCP_DATA frame and never changes too_full (C09_gate_uwrite, "
                 "C09_gate); check_fullness queues exactly one rttest PING when it pauses and nothing while paused "
                 "(C09_ping_once); a callback adds at most the 2048-byte cut to fullness (C09_callback_bound, the "
-                "per-callback overshoot constant); a PING is answered by a PONG whatever the receiver's own state and a "
+                "per-callback overshoot constant), any n callbacks between two check_fullness calls at most n x 2048, so one pass "
+                "of runonce (at most four callbacks per handler: one per entry of its socks list) exceeds the budget by at most "
+                "4 x 2048 bytes per active connection (C09_callbacks_overshoot, C09_pass_overshoot); a PING is answered by a PONG whatever the receiver's own state and a "
                 "PONG lifts the pause (C09_ping_answered); for EVERY schedule a paused end has its PING or the answering "
                 "PONG still in flight (C09_answered), so a drained tunnel is never paused (C09_drained_not_full); with "
                 "check_fullness never called too_full stays false in every reachable state (C09_off). Replayed against "
